@@ -42,9 +42,13 @@ def build(decls, stmts, xdp_min=None):
     for name, storage, fmt in decls:
         if storage == "local":
             ns[name] = LocalVar(fmt)
-        elif storage == "array":
+        elif storage in ("array", "percpu"):
             if amap is None:
-                amap = ns["vmap"] = ArrayMap()
+                if storage == "percpu":
+                    from ebpfcat.arraymap import PerCPUArrayMap
+                    amap = ns["vmap"] = PerCPUArrayMap()
+                else:
+                    amap = ns["vmap"] = ArrayMap()
             ns[name] = amap.globalVar(fmt)
         elif storage == "hash":
             from ebpfcat.hashmap import HashMap
@@ -96,7 +100,7 @@ def build(decls, stmts, xdp_min=None):
         d = cls.__dict__[name]
         if storage == "local":
             res.layout[name] = ("local", fmt, d.relative_addr)
-        elif storage == "array":
+        elif storage in ("array", "percpu"):
             res.layout[name] = ("array", fmt, e.__dict__[name])
         elif storage == "hash":
             res.layout[name] = ("hash", fmt, d.count)
@@ -185,6 +189,9 @@ def run_stmts(e, stmts):
                     run_stmts(e, s[2])
                 with Else:
                     run_stmts(e, s[3])
+        elif t == "guard":             # ["guard", N, stmts]: with self.packetSize > N: ...
+            with e.packetSize > s[1]:
+                run_stmts(e, s[2])
         elif t == "exit":
             e.exit(XDPExitCode(s[1]))
         else:
@@ -203,10 +210,15 @@ def fmt_signed(fmt):
     return fmt[-1].islower()
 
 
+def fmt_order(fmt):
+    """memory order of a format: explicit '>' / '!' is big-endian; native (this host) and '<' are little-endian"""
+    return "big" if fmt[0] in ">!" else "little"
+
+
 def to_bytes(fmt, v):
     n = fmt_size(fmt)
-    return (v % (1 << 8 * n)).to_bytes(n, "little")
+    return (v % (1 << 8 * n)).to_bytes(n, fmt_order(fmt))
 
 
 def from_bytes(fmt, b):
-    return int.from_bytes(b, "little", signed=fmt_signed(fmt))
+    return int.from_bytes(b, fmt_order(fmt), signed=fmt_signed(fmt))
